@@ -3,17 +3,24 @@ import json
 import os
 import sys
 
+import rules_api
 import rules_det
 import rules_io
 import rules_lock
 
 PROPS = {
     "C06": {
-        "rules": [rules_io.flushfirst, rules_io.window],
+        "rules": [rules_io.flushfirst, rules_io.window, rules_api.errkind("C06")],
         "explanation": "Cache-protocol clauses of the hand-written stream buffer, decided as path properties over the MIR of every Stream method: "
                        "R-FLUSHFIRST (every window move - store to buf_offset_from_start, StreamBuffer::clear, refill_with - is preceded on every path by the ok successor of flush_changes, with no mark_modified in between) and "
                        "R-WINDOW (after the window offset is stored, every path to any return, error exits included, passes clear or a successful refill).",
         "not_decided": "equality with a byte vector for all call sequences and buffer sizes (values of pos/cap/offset/total_len across histories); set_len near u64::MAX",
+    },
+    "C10": {
+        "rules": [rules_api.noeffect],
+        "explanation": "R-NOEFFECT (must-not-precede): refusal points of every API method (io::Error::new with NotFound/AlreadyExists/InvalidInput, and error exits of effect-free fallible callees that can construct such kinds) are enumerated from MIR; "
+                       "no path from the entry to a refusal point may pass a call whose transitive effects include a state/file mutation, a Stream drop, or a store to a Stream field.",
+        "not_decided": "bit-for-bit equality of state (follows from 'no effect ran' only given that effect-free code is effect-free, which the effect closure establishes for this crate); partial effects of the compound operations create_storage_all/remove_storage_all when a later step is refused by a callee",
     },
     "C12": {
         "rules": [rules_io.errdisc(["io_read", "io_seek"], "read"), rules_io.window],
